@@ -211,11 +211,16 @@ func (s jsonSet) patch(
 		// An object with the key values of the path; failing that, one
 		// which lacks the keys that are null in the path.
 		for _, absentIsNull := range []bool{false, true} {
-			for _, v := range s {
+			for i, v := range s {
 				if o, ok := v.(jsonObject); ok {
 					id := o.pathIdent(jsonObject(pathSetKeys), absentIsNull, metadata)
 					if id == lookingFor {
-						v.patch(append(pathBehind, n), rest, before, oldValues, newValues, after, strategy)
+						// The member is patched in a copy: a change that
+						// fails half-way must not leave it half-edited.
+						patched, err := cloneNode(v).patch(append(pathBehind, n), rest, before, oldValues, newValues, after, strategy)
+						if err == nil {
+							s[i] = patched
+						}
 						return s, nil
 					}
 				}
